@@ -203,6 +203,91 @@ example (call : CallFn natOps) (ρ : ExtOracle natOps) :
   ⟨_, definition_scoped call ρ 0 ⟨[("M", 0)], []⟩ "M" "a" exBody 0 0 _ (by decide) (by simp [lookupAssoc])
     (by simp [State.getCell]) (by simp [State.rawGet, State.getTable, rawGetEntries]) (by simp [State.getTable])⟩
 
+/-! ## Composition: the bundle versus the program with a textbook `require` -/
+
+/-- a source file with its inlinable require calls abstracted: `src call` is the block in which the
+module with definition index `k` is obtained through the expression `call k` -/
+abbrev Src := (Nat → Expr) → Block
+
+def nameAt (names : List String) (k : Nat) : String := names.getD k "?"
+
+/-- the bundle darklua emits for modules `mods` (name, source; definition order) and an entry -/
+def bundleProgram (M : String) (mods : List (String × Src)) (entry : Src) : Block :=
+  let names := mods.map (·.1)
+  let call := fun k => accessorCall M (nameAt names k)
+  assemble M (mods.map fun (n, src) => (n, src call)) (entry call)
+
+/-- the same sources run with a textbook `require`: a `package.loaded`-style cache keyed by the
+module's name, each body wrapped in a function that runs on first use, its first value cached
+in a box (so `nil`/`false` count as loaded):
+```lua
+local __ref_loaded, __ref_modules = {}, {}
+local function __ref_require(name)
+  local box = __ref_loaded[name]
+  if box == nil then box = { value = (__ref_modules[name]()) } __ref_loaded[name] = box end
+  return box.value
+end
+__ref_modules["<name>"] = function() <body> end …
+<entry>
+``` -/
+def referenceProgram (mods : List (String × Src)) (entry : Src) : Block :=
+  let names := mods.map (·.1)
+  let call := fun k => Expr.call (.var "__ref_require") none .tuple [.str (strToBytes (nameAt names k))]
+  let requireFn : FnBody := .mk [.mk "name" none] false none none [] []
+    (.mk
+      [ .localAssign .loc [.mk "box" none] [.index (.var "__ref_loaded") (.var "name")],
+        .ifs [(.bin .eq (.var "box") .nil,
+          .mk [ .assign [.var "box"]
+                  [.table [.named "value" (.paren (.call (.index (.var "__ref_modules") (.var "name")) none .tuple []))]],
+                .assign [.index (.var "__ref_loaded") (.var "name")] [.var "box"] ] none)] none ]
+      (some (.ret [.field (.var "box") "value"])))
+  match entry call with
+  | .mk stmts last =>
+    .mk
+      ([ .localAssign .loc [.mk "__ref_loaded" none, .mk "__ref_modules" none] [.table [], .table []],
+         .localFn .loc "__ref_require" requireFn ] ++
+       (mods.map fun (n, src) =>
+         .assign [.index (.var "__ref_modules") (.str (strToBytes n))] [.fn (.mk [] false none none [] [] (src call))]) ++
+       stmts)
+      last
+
+/-- FULL statement of `bundle_refines` (kept visible, NOT proved): for sources that do not mention
+the reserved identifiers (`M`, `__modImpl`, the `__ref_…` names) and pairwise distinct module names
+other than `cache`, whenever the program with the textbook `require` returns values `vs` with trace
+`tr` at some level, the bundle returns the same values with the same trace at some level.
+What is proved towards it is `bundle_refines_partial` below plus `accessor_memoises`,
+`definition_scoped`, `inline_dag`; what is missing is the frame argument for arbitrary module
+bodies (that running a body preserves the boxes of all other modules — needs monotonicity lemmas
+for the whole of `Sem`) and the induction over the definition order that it enables. The harness
+checks this statement by execution on every generated graph instead. -/
+def bundle_refines_full : Prop :=
+  ∀ (N : NumOps) (ρ : ExtOracle N) (externs : List String) (M : String) (mods : List (String × Src)) (entry : Src)
+    (n : Nat) (vs : List CVal) (tr : List Event),
+    (mods.map (·.1)).Nodup → "cache" ∉ mods.map (·.1) →
+    runProgram ρ n externs (referenceProgram mods entry) = .returned vs tr →
+    ∃ m, runProgram ρ m externs (bundleProgram M mods entry) = .returned vs tr
+
+/-- **`bundle_refines_partial`** (one module): the statements the bundler puts in front of the entry
+execute to exactly this: the entry's scope gains the modules identifier `M` and nothing else (no
+module local, not `__modImpl`), and the state is the fresh modules table with an empty `cache`
+followed by the definition of the module — i.e. precisely the situation `accessor_memoises`
+assumes (slot `M.cache.<name>` empty, `__modImpl` bound to the wrapper of the body, accessor
+stored in `M.<name>`). -/
+theorem bundle_refines_partial (call : CallFn N) (ρ : ExtOracle N) (k : Nat) (env : Env N) (M name : String)
+    (B : Block) (σ : State N) (hMI : M ≠ implName) (hname : name.toUTF8.toList ≠ "cache".toUTF8.toList) :
+    execSs call ρ (k + 1) env (prelude M [(name, B)]) σ
+      = .ok (.next ⟨(M, σ.cells.length) :: env.locals, env.varargs⟩)
+          (afterDefinition M name B ((M, σ.cells.length) :: env.locals) σ.tables.length (afterTable σ)) :=
+  prelude_single call ρ k env M name B σ hMI hname
+
+-- non-vacuity (the byte inequality of the two names is passed in: string literals do not reduce in
+-- the kernel; the harness runs exactly this configuration — module `a` — on every graph)
+example (call : CallFn natOps) (ρ : ExtOracle natOps) (hname : "a".toUTF8.toList ≠ "cache".toUTF8.toList) :
+    ∃ σ', execSs call ρ 1 ⟨[], []⟩ (prelude "__DARKLUA_BUNDLE_MODULES" [("a", exBody)])
+      ({ globals := [], trace := [], cells := [], tables := [], closures := [] } : State natOps)
+      = .ok (.next ⟨[("__DARKLUA_BUNDLE_MODULES", 0)], []⟩) σ' :=
+  ⟨_, bundle_refines_partial call ρ 0 ⟨[], []⟩ "__DARKLUA_BUNDLE_MODULES" "a" exBody _ (by decide) hname⟩
+
 /-! ## The inlining walk (`RequirePathProcessor`) -/
 
 section graph
